@@ -39,6 +39,7 @@ FLOORS = {'numeric_spelling_cases': 600, 'text_spelling_cases': 100,
           'formula_cases': 120, 'keyword_spelling_cases': 300,
           'empty_text_cases': 20, 'numeric_by_meaning_cases': 100,
           'blank_for_defaulted_parameter_cases': 20,
+          'big_integer_spelling_cases': 50,
           'scientific_text_cases': 150, 'host_decimal_context_cases': 100}
 ANCHOR_FUNCS = {
     'xlcalculator/xlfunctions/xl.py': ['validate_args.<locals>.validate',
@@ -590,6 +591,36 @@ def run(ctx):
                            {'formula': text, 'inputs': inputs,
                             'observed': got, 'canonical': w},
                            group=f'scientific:formula:{got[0]}')
+
+    # ---- A5. whole numbers beyond 2^53 keep every digit however they are given:
+    # as a literal in the formula, as a cell value, as numeric text -------------
+    if sh in (4, 5):
+        for big in (2 ** 53 + 1, 9007199254740993, 10 ** 17 + 3,
+                    12345678901234567891, -(2 ** 53) - 3):
+            lit_ = str(big) if big >= 0 else '-' + str(-big)
+            base_ = big - 1 if big > 0 else big + 1
+            cases = [
+                (f'={lit_}-A1', {'A1': base_}, float(big - base_)),
+                (f'=A2-A1', {'A1': base_, 'A2': big}, float(big - base_)),
+                (f'="{lit_}"-A1', {'A1': base_}, float(big - base_)),
+                (f'=MOD({lit_},10)', {}, float(big % 10)),
+                (f'=MOD(A2,10)', {'A2': big}, float(big % 10)),
+                (f'={lit_}={base_ if base_ >= 0 else "-" + str(-base_)}', {},
+                 False),
+            ]
+            for text, inputs, want in cases:
+                got = subject.eval_one(text, inputs)
+                ctx.event('big_integer_spelling_cases')
+                ctx.case(('big-int', text[:14], big))
+                wn = ('bool', want) if isinstance(want, bool) else \
+                    ('num', want)
+                if got != ('value', wn):
+                    report(f'{text} with {inputs} -> {got}, expected '
+                           f'{want!r} (whole numbers keep their digits '
+                           f'however they are written)',
+                           {'formula': text, 'inputs': inputs,
+                            'observed': got, 'canonical': want},
+                           group=f'big-int:{text[:8]}:{got[0]}')
 
     # ---- C4. numeric text is read the same whatever decimal context the calling
     # application has set for its own arithmetic -------------------------------
